@@ -179,7 +179,12 @@ def run(ck: Check, prog: Program) -> None:
         ck.functions |= {f3.qualname, f2.qualname}
         problems = []
         # H3: returns the invocation result unchanged
-        mf, _ = method_call_facts(prog, interp, r)
+        mf, mprob = method_call_facts(prog, interp, r)
+        # … which includes that a coroutine the method returned is awaited whenever the call produced one (decided on the value
+        # returned, not on how the method was registered): otherwise the "result" is a coroutine object and the body never ran
+        for rule_, construct_, line_, msg_ in mprob:
+            if rule_ == 'ONCE-INVOKE':
+                problems.append((line_, msg_))
         from ..flow import Flow
         cfg = CFG(f3, prog)
         fl3 = Flow(cfg)
